@@ -197,7 +197,7 @@ def run_w2(res, task):
     Ts = [None, 0.75, 1.0, 2.0, 3.25, 4.0, 6.0]
     for idx, nl in enumerate(W.w2_circuits(task)):
         if tier == 'quick' and idx % 2 != seed % 2: continue
-        si = idx % len(STYLES)
+        si = (idx // 2 if tier == 'quick' else idx) % len(STYLES)
         b = build(nl, STYLES[si])
         nlines = len(b.circuit.lines)
         dangling = any(f'g{k}' not in nl.readers() for k in range(len(nl.gates)))
